@@ -142,7 +142,9 @@ def geom_kind(case):
 def run(ctx):
     ctx.base_trust([
         "C18 Douglas-Peucker model (lean/GeosModel/Model/Simplify/DP.lean) is hand-written from DouglasPeuckerLineSimplifier.cpp; "
-        "the driver instantiates it with Lean `Float` (hardware binary64) and a transcription of Distance::pointToSegment",
+        "the driver instantiates it with DP.cxxOps at Lean `Float` (hardware binary64; Model/Simplify/Dist.lean: Distance::pointToSegment over the arithmetic interface Cxx.Math); "
+        "translator tie: Distance::pointToSegment / LineSegment::distance / the body of simplifySection are regenerated from the C++ (translate/cxx2lean.py, spec dp_simplify) and "
+        "proved equal to that model for every carrier (Props/C18Gen.lean); the recursion as a whole and simplify()'s ring post-step are tied by the dp stream only",
         "the DP theorems assume `>`/`<=` form a total preorder on the distances (no NaN distance); the 2*tol ring bound assumes the "
         "triangle-inequality laws of point-segment distance (hypothesis TriLaws, shown satisfiable on an exact instance)",
         "polygons whose rough DP result is not certainly valid (rings in contact / crossing) are repaired by GEOS with buffer(0); "
@@ -152,7 +154,7 @@ def run(ctx):
         "hull target parameters and 'same union up to tolerance' of coverage simplification are not checked",
         "contract streams use contact-free valid inputs (generator filtered with GEOS's robust LineIntersector and re-checked exactly by the driver)",
     ])
-    proved = ctx.prove(PROPS, extra_targets=(DRV,))
+    proved = ctx.prove_generated([("dp_simplify", "GeosModel/Generated/DPSimplify.lean", "GeosModel.Props.C18Gen")], PROPS, extra_targets=(DRV,))
     ok, out = verif.build_geos("rel")
     if not ok:
         ctx.violation("GEOS does not build with -DGEOS_VERIF", {"kind": "build-failure", "log": out[-3000:]}, nofail=True)
